@@ -44,6 +44,12 @@ CLAIMS = {
  'C13': ("construct / constructSkip model every CallbackRetVal / SkipRetVal impl row by row; lex_eq_spec holds for every callback table, so skips, custom errors and emitted variants are those of the reference lexer; zoo definitions carry callbacks of every supported return type, an error callback and bumping callbacks.",
          "callback bodies are executed, not modelled (same pure decision on both sides).",
          "Lean theorem (for all callback tables) + correspondence with every return type"),
+ 'C15': ("bumpFixed_ok_iff, bumpFixed_preserves, after_any_bumps_safe: the repaired rule (checked_add, assert, then assign) succeeds exactly when the new end is representable, in range and on a boundary, and every sequence of bumps, successful or panicking, leaves a span for which slice()/remainder() are defined; bumpFound_* prove that the code as found violated this (kept as regression witnesses); real Lexer::bump exercised at boundary values in debug/release x default/forbid_unsafe under catch_unwind.",
+         "the model treats usize as 64-bit; 32-bit targets are not exercised.",
+         "Lean theorems on the bump rule + boundary-value correspondence in 4 builds"),
+ 'C18': ("Model of AttributeParser::next and parse_definition over abstract token trees; allNested_render (the tokenizer reads back exactly the items written, in any order), named_args_perm (every permutation of well-formed named arguments parses to the same canonical Definition), parseArgs_errors_iff (acceptance depends only on the multiset of arguments); group_then_assign_counterexample proves the code as found violated it; all permutations of every argument subset run through the real derive and compared (verdict, diagnostics, leaves, generated code), the model compared with the real parser on well-formed and malformed lists.",
+         "equivalence of lexers under permutation of #[logos(...)] items is checked on captured leaves (order-insensitive), not proved.",
+         "Lean theorems on the tokenizer model + all-permutations correspondence"),
  'C20': ("attemptI_reads_monotone and attemptI_reads_linear hold for every graph (no well-formedness needed): within one attempt read offsets never decrease and reads <= 4*(bytes examined)+8; the real read traces (verif_trace) equal the model's predicted traces exactly and satisfy the same predicate directly.",
          "trace equality is a correspondence run on sampled inputs.",
          "Lean theorems for all graphs + exact trace correspondence"),
